@@ -153,8 +153,19 @@ pub fn gen_session(seed: u64, run: u64, thorough: bool) -> Session {
             doc_uri(i)
         }
     };
+    // One on-disk session in four: the project is *born later*. The documents are opened while
+    // there is no gleam.toml beside them (free-standing files); some edits later the manifest
+    // appears and another file of the directory - or the manifest itself - is opened, which makes
+    // the server discover the package and load it from disk. The open documents are the editor's.
+    let mut brng = Rng::new(mix(mix(seed, run), 0xB0B1));
+    let born_later = on_disk && brng.chance(1, 4);
     if on_disk {
+        tree.push(("src/other.gleam".into(), "pub fn other() { 1 }\n".into()));
+    }
+    if on_disk && !born_later {
         tree.push(("gleam.toml".into(), "name = \"proj\"\n".into()));
+    }
+    if on_disk {
         for d in 0..ndocs {
             tree.push((format!("src/d{d}.gleam"), format!("// saved content {}\n{}", d, gen_text(&mut rng, 10).replace('\r', ""))));
         }
@@ -197,7 +208,17 @@ pub fn gen_session(seed: u64, run: u64, thorough: bool) -> Session {
         models.push(DocModel { text });
     }
     let nchanges = rng.range(1, if thorough { 15 } else { 10 });
-    for _ in 0..nchanges {
+    let born_at = brng.below(nchanges);
+    for round in 0..nchanges {
+        if born_later && round == born_at {
+            ops.push(PlannedOp::tagged(Op::Disk(crate::lsp::DiskOp::Write { path: "gleam.toml".into(), text: "name = \"proj\"\n".into() }), "disk.manifest_appears"));
+            let u = if brng.chance(1, 2) { format!("file://{root}/src/other.gleam") } else { format!("file://{root}/gleam.toml") };
+            let t = if u.ends_with(".toml") { "name = \"proj\"\n".to_string() } else { "pub fn other() { 2 }\n".to_string() };
+            ops.push(PlannedOp::tagged(Op::Open { uri: u, text: t }, "open.discovers_package_of_open_documents"));
+            for d in 0..ndocs {
+                ops.push(PlannedOp::new(Op::ProbeText { uri: doc_uri(d) }));
+            }
+        }
         if on_disk && rng.chance(1, 5) {
             // the editor reports a file event for a document it has open (an atomic save by
             // rename, a checkout): the document is the editor's, the event must not touch it
